@@ -197,6 +197,7 @@ func TestC08Liveness(t *testing.T) {
 	sub := lab.Sub("breaker-recovery-script", "rapid: breaker section (failure/success threshold 1-3 - in one case of twelve success_threshold 100-300 with max_requests omitted, equal or above, failure_threshold up to 50 -, max_requests unset or 1-4 or huge, interval/timeout 1/5/60 s) accepted by the real config.Validate, balancer built the real way (OnStateChange callback installed), "+
 		"beside the breaker section the other durations of the file are drawn: health checks {off / passive / active / both; unhealthy_timeout 1 s-1 h, i.e. shorter than, equal to and far longer than the breaker's timeout - it is also how long an ejection by an active check lasts, and may be omitted when only active checks are on; unhealthy_threshold 1-5; active interval/timeout 2/1-90/60 s with probes that mirror the backend or are always answered 200}, "+
 		"server.timeouts.handler omitted/1 s-1 day and backend_read 0-600 s, and in one case of four part of a pool of 2-3 never breaks; "+
+		"one case in twelve is an aged process: 10-300 earlier cycles of {backends fail, breaker opens, backends good, timeout passes, trials close it} before the history, with nobody reading the metrics in between; "+
 		"a drawn history of requests / backend behaviour changes (good, 5xx, unreachable, abort mid-body) / time advances brings the breaker into some state; then the bounded recovery script: all backends good, advance timeout+1ms (the breaker's timeout only, whatever the other durations are, whenever some backend can never have been ejected - fewer failed answers than unhealthy_threshold and, with mirroring probes, never anything but good; otherwise the unhealthy windows are waited out too), "+
 		"up to success_threshold+max_requests+2 requests (one extra advance if a trial failed), after which the breaker must be CLOSED and the next 3 requests all reach a backend; every call guarded by a 20 s no-progress watchdog; "+
 		"non-trivial = breaker open or half-open when the script starts")
@@ -216,6 +217,11 @@ func TestC08Liveness(t *testing.T) {
 			rt.Skip("configuration not accepted: " + err.Error())
 		}
 		n := rapid.IntRange(0, maxLen).Draw(rt, "n")
+		// process age (see the prelude below): one case in twelve has 10-300 earlier open/close cycles behind it
+		cycles := 0
+		if c.FT <= 3 && c.ST <= 3 && rapid.IntRange(0, 11).Draw(rt, "aged") == 0 {
+			cycles = rapid.SampledFrom([]int{10, 90, 100, 120, 300}).Draw(rt, "earlier_cycles")
+		}
 		var hist []string
 		var viol, startState, trafficKind string
 		earlyWait := false
@@ -294,6 +300,31 @@ func TestC08Liveness(t *testing.T) {
 				advances := []time.Duration{time.Millisecond, iv / 2, iv + time.Millisecond, to / 2, to - time.Millisecond, to + time.Millisecond}
 				if side.Passive || side.Active {
 					advances = append(advances, ut/2, ut+time.Millisecond)
+				}
+				// Round 9 - the age of the process: a breaker may have opened and closed hundreds of times before the history
+				// begins, and nothing says that anybody has read the metrics in the meantime (this sub-check reads the
+				// published state only once the recovery script starts). Each cycle: every backend fails until the breaker
+				// has seen failure_threshold failures, everything is good again, the timeout passes, trials close it.
+				// Whatever the cycles really do to this configuration (health checks may eject, part of the pool may never
+				// break), they are ordinary traffic: no call may block and the recovery script must still end CLOSED.
+				for cy := 0; cy < cycles; cy++ {
+					for i := side.Steady; i < nb; i++ {
+						fn.Set(lab.BackendHost(i), lab.Status5xx)
+						everBad[i] = true
+					}
+					for j := 0; j < c.FT; j++ {
+						req(j)
+					}
+					for i := 0; i < nb; i++ {
+						fn.Set(lab.BackendHost(i), lab.Good)
+					}
+					sleep(to + time.Millisecond)
+					for j := 0; j <= c.ST; j++ {
+						req(j)
+					}
+				}
+				if cycles > 0 {
+					hist = append(hist, fmt.Sprintf("%d earlier cycles of {all backends 5xx, %d requests, all good, adv(%v), %d requests} with nobody reading the metrics", cycles, c.FT, to+time.Millisecond, c.ST+1))
 				}
 				for i := 0; i < n; i++ {
 					k := rapid.IntRange(0, 99).Draw(rt, "op")
@@ -383,6 +414,9 @@ func TestC08Liveness(t *testing.T) {
 		}
 		labels := []string{"start-" + startState, fmt.Sprintf("st%d-mr%s", c.ST, mrl)}
 		labels = append(labels, "traffic="+trafficKind)
+		if cycles > 0 {
+			labels = append(labels, "aged-process", fmt.Sprintf("earlier-cycles-%d", cycles))
+		}
 		labels = append(labels, side.labels(c)...)
 		if earlyWait {
 			labels = append(labels, "health-checks-on,some-backend-never-ejected:only-breaker-timeout-granted")
